@@ -10,6 +10,7 @@ package main
 
 import (
 	"bytes"
+	"context"
 	"encoding/json"
 	"errors"
 	"fmt"
@@ -23,6 +24,7 @@ import (
 	"github.com/go-spring/log"
 
 	"verifharness/hx"
+	"verifharness/sys"
 )
 
 func init() { commands["encoder"] = cmdEncoder }
@@ -191,7 +193,7 @@ var encStrings = []string{"", "plain", "with \"quotes\"", `back\slash`, "line\nb
 // keys: every escape class on its own inside otherwise plain text (a fast path may single out "plain" keys by a
 // check that forgets one class), plus structural characters of the text layout and header names
 var encKeys = []string{"k", "key2", "", "a\"b", "x=y", "p|q", "nl\nkey", "bad\xfe", "ключ", "msg", "level", "k",
-	`back\slash`, `C:\path`, `trailing\`, "ctl\x01k", "esc\x1b", "tab\tk", "cr\rk", "del\x7f", "nul\x00k", "cut\xe4\xb8", "hi\x80", "ls\u2028", "time", "fileLine", "tag"}
+	`back\slash`, `C:\path`, `trailing\`, "ctl\x01k", "esc\x1b", "tab\tk", "cr\rk", "del\x7f", "nul\x00k", "cut\xe4\xb8", "hi\x80", "ls\u2028", "time", "fileLine", "tag", "ov\xc0\x80", "\xc1\xbfk"}
 var encInts = []int64{math.MinInt64, -1, 0, 1, math.MaxInt64, 1234567890123, -42}
 var encUints = []uint64{0, 1, math.MaxUint64, math.MaxInt64 + 1, 4294967296}
 var encFloats = []float64{0, math.Copysign(0, -1), 1.5, -2.25, 5e-324, math.MaxFloat64, -math.MaxFloat64, 1e21, 1e-7,
@@ -736,7 +738,11 @@ func cmdEncoder(f hx.Flags, r *hx.Result) {
 	rng := hx.Rand(7)
 	g := &encGen{rng: rng}
 	variants := f.Int("variants", 3)
-	levels := []log.Level{log.TraceLevel, log.DebugLevel, log.InfoLevel, log.WarnLevel, log.ErrorLevel, log.PanicLevel, log.FatalLevel}
+	levels := []log.Level{log.TraceLevel, log.DebugLevel, log.InfoLevel, log.WarnLevel, log.ErrorLevel, log.PanicLevel, log.FatalLevel,
+		log.NoneLevel, log.MaxLevel,
+		// user-registered levels: inside the hundred of a built-in one, below zero, next to MAX, and a second name for a built-in code
+		log.RegisterLevel(350, "NOTICE"), log.RegisterLevel(450, "ALERT"), log.RegisterLevel(50, "FINE"), log.RegisterLevel(-50, "BELOW"),
+		log.RegisterLevel(950, "NEARMAX"), log.RegisterLevel(1000, "BEYOND"), log.RegisterLevel(300, "INFOX"), log.InfoLevel}
 	zones := []*time.Location{time.UTC, time.FixedZone("plus", 5*3600+1800), time.FixedZone("minus", -8*3600), time.Local}
 	n := 0
 	distinct := 0
@@ -755,8 +761,13 @@ func cmdEncoder(f hx.Flags, r *hx.Result) {
 			// the variants of one case share the instant but not the zone
 			e.Time = instant.In(zones[(n+v)%len(zones)])
 			e.File = strings.Repeat("d/", rng.Intn(40)) + "file.go"
-			if rng.Intn(6) == 0 {
+			switch rng.Intn(12) {
+			case 0, 1:
 				e.File = strings.Repeat("x", rng.Intn(300))
+			case 2: // a source path with multi-byte runes: byte-wise truncation may cut inside one
+				e.File = strings.Repeat("目录/", rng.Intn(12)) + "文件é.go"
+			case 3: // characters that need escaping in a JSON string
+				e.File = `C:\work\"quoted" dir\` + strings.Repeat("sub\\", rng.Intn(10)) + "f\tile.go"
 			}
 			e.Line = rng.Intn(5000)
 			e.Tag = "_enc_tag"
@@ -857,8 +868,19 @@ func cmdEncoder(f hx.Flags, r *hx.Result) {
 			}
 			// ---------------- C08: rebuild the text line from the real JSON line
 			fileLine, _ := unq(root.kids[2].raw)
+			// the header's file:line by the statement: the last max(W-3,0) bytes behind "..." (bytes: the text line shows
+			// them as they are, the JSON line as a string with every invalid byte replaced)
+			full := e.File + ":" + strconv.Itoa(e.Line)
+			wantFL := full
+			if len(full) > width {
+				keep := width - 3
+				if keep < 0 {
+					keep = 0
+				}
+				wantFL = "..." + full[len(full)-keep:]
+			}
 			var sb strings.Builder
-			sb.WriteString("[" + strings.ToUpper(e.Level.Name()) + "][" + e.Time.Format("2006-01-02T15:04:05.000") + "][" + fileLine + "] " + e.Tag + "||")
+			sb.WriteString("[" + strings.ToUpper(e.Level.Name()) + "][" + e.Time.Format("2006-01-02T15:04:05.000") + "][" + wantFL + "] " + e.Tag + "||")
 			if hasCtx {
 				sb.WriteString(e.CtxString + "||")
 			}
@@ -886,22 +908,17 @@ func cmdEncoder(f hx.Flags, r *hx.Result) {
 				r.Violate("text-differs-from-json-tokens", desc, "text line %s differs from the line rebuilt from the JSON tokens %s", clip(string(tb), 300), clip(sb.String(), 300))
 				continue
 			}
+			hdrEnd := strings.Index(string(tb), "] "+e.Tag+"||") // the header shows the file name as it is; the clause is about keys and values
 			for i, b := range tb {
+				if i <= hdrEnd {
+					continue
+				}
 				if b < 0x20 && !(b == '\n' && i == len(tb)-1) {
 					r.Violate("text-raw-control", desc, "text line contains raw control byte %#x", b)
 					break
 				}
 			}
 			// file:line law on the real fileLine member
-			full := e.File + ":" + strconv.Itoa(e.Line)
-			wantFL := full
-			if len(full) > width {
-				keep := width - 3
-				if keep < 0 {
-					keep = 0
-				}
-				wantFL = "..." + full[len(full)-keep:]
-			}
 			if fileLine != rstr(wantFL) {
 				r.Violate("file-line-truncation", desc, "fileLine %q for %d bytes at width %d, want %q", fileLine, len(full), width, wantFL)
 			}
@@ -917,6 +934,101 @@ func cmdEncoder(f hx.Flags, r *hx.Result) {
 	r.NonTrivial(int64(distinct))
 	encFromMap(r, rng)
 	encAnyTable(r)
+	encReturnedBytes(r)
+	encReentrant(r)
+}
+
+// encReturnedBytes: the line a layout returned stays what it was while later events are formatted, for line sizes
+// on both sides of every capacity a formatting buffer can have relative to the buffer-reuse cap (1 KiB here: sizes
+// in (512, 1024] make the capacity exactly the cap).
+func encReturnedBytes(r *hx.Result) {
+	old := log.BufferCap.Load()
+	defer log.BufferCap.Store(old)
+	log.BufferCap.Store(1024)
+	for li, lay := range []log.Layout{&log.JSONLayout{BaseLayout: log.BaseLayout{FileLineLength: 48}}, &log.TextLayout{BaseLayout: log.BaseLayout{FileLineLength: 48}}} {
+		var prev, prevCopy []byte
+		var prevSize int
+		for _, size := range []int{10, 300, 460, 500, 700, 900, 950, 40, 1000, 20, 1500, 30, 800, 5000, 600, 610} {
+			e := &log.Event{Level: log.InfoLevel, Time: time.Unix(1e9, 0).UTC(), File: "f.go", Line: 1, Tag: "_t",
+				Fields: []log.Field{log.Int("id", int64(size)), log.String("pad", strings.Repeat(string(rune('a'+size%26)), size))}}
+			var b []byte
+			if p := hx.Catch(func() { b = lay.ToBytes(e) }); p != nil {
+				r.Violate("layout-panic", map[string]any{"size": size}, "ToBytes panicked: %v", p)
+				return
+			}
+			r.Eval(1)
+			if prev != nil && !bytes.Equal(prev, prevCopy) {
+				r.Violate("returned-line-mutated", map[string]any{"layout": []string{"json", "text"}[li], "previous_pad": prevSize, "next_pad": size, "bufferCap": 1024},
+					"the line returned for the previous event (%d bytes) changed while the next event was formatted: now %s", len(prevCopy), clip(string(prev), 120))
+				return
+			}
+			prev, prevCopy, prevSize = b, append([]byte(nil), b...), size
+		}
+	}
+}
+
+// reentrantArr is a user-supplied array value that itself logs while it is being encoded.
+type reentrantArr struct{ inner func() }
+
+func (a reentrantArr) EncodeArray(enc log.Encoder) {
+	enc.AppendInt64(1)
+	a.inner()
+	enc.AppendInt64(2)
+}
+
+// encReentrant: event A's field encoder logs event B while A is being formatted; both share the context-field
+// slice the hook hands out (spare capacity over one array).  Each line must carry its own fields, in order.
+func encReentrant(r *hx.Result) {
+	sys.InstallConsole()
+	for _, layout := range []string{"JSONLayout", "TextLayout"} {
+		log.Destroy()
+		log.VerifReset()
+		sys.ResetAppenders()
+		tag := log.RegisterTag("reent_tag")
+		var shared [8]log.Field
+		shared[0] = log.String("req", "r1")
+		log.FieldsFromContext = func(context.Context) []log.Field { return shared[:1:8] }
+		cfg := sys.Cfg{}
+		cfg["appender.re.type"] = "Rec"
+		// the logger formats (logger-level layout) and hands the bytes to the recording appender's Write
+		cfg.AddLogger("lg", "Logger", "", "reent_tag", []sys.Ref{{Ref: "re"}}, false, map[string]string{"layout.type": layout})
+		if err := log.Refresh(cfg.Map(nil)); err != nil {
+			log.FieldsFromContext = nil
+			r.SetInfra("encReentrant refresh: %v", err)
+			return
+		}
+		ctx := context.Background()
+		p := hx.Catch(func() {
+			log.Info(ctx, tag, log.String("a0", "A"), log.Array("arr", reentrantArr{func() {
+				log.Warn(ctx, tag, log.String("b0", "B"), log.String("b1", "B"), log.String("b2", "B"), log.String("b3", "B"))
+			}}), log.String("a1", "A"), log.String("a2", "A"), log.String("a3", "A"))
+		})
+		log.FieldsFromContext = nil
+		log.Destroy()
+		r.Eval(2)
+		desc := map[string]any{"layout": layout, "scenario": "a field encoder of event A logs event B; shared context-field slice with spare capacity"}
+		if p != nil {
+			r.Violate("reentrant-log-panic", desc, "re-entrant logging panicked: %v", p)
+			continue
+		}
+		var lines []string
+		for _, rc := range sys.Appender("re").Recs() {
+			lines = append(lines, string(rc.Raw))
+		}
+		keysOf := func(line string) string {
+			var ks []string
+			for _, k := range []string{"req", "a0", "arr", "a1", "a2", "a3", "b0", "b1", "b2", "b3"} {
+				if strings.Contains(line, `"`+k+`":`) || strings.Contains(line, "||"+k+"=") {
+					ks = append(ks, k)
+				}
+			}
+			return strings.Join(ks, ",")
+		}
+		if len(lines) != 2 || keysOf(lines[0]) != "req,b0,b1,b2,b3" || keysOf(lines[1]) != "req,a0,arr,a1,a2,a3" {
+			r.Violate("reentrant-fields-mixed", desc, "lines written: %q; the inner event must carry req,b0..b3 and the outer one req,a0,arr,a1,a2,a3", lines)
+		}
+	}
+	log.VerifReset()
 }
 
 // encFromMap: map-sourced fields are emitted sorted by key, each value through the Any dispatch;
